@@ -355,7 +355,7 @@ func c18Cases(thorough bool) []c18Case {
 		for n := 0; n <= maxN; n++ {
 			cs = append(cs, c18Case{Kind: "body", N: n, B64: b64})
 			for ch := 1; ch <= n; ch++ {
-				if !thorough && n > 100 && ch > 8 && ch%7 != 0 && ch != 57 && ch != 76 && ch != 3 {
+				if !thorough && n > 100 && ch > 8 && ch%7 != 0 && ch%57 != 0 && ch%76 != 0 && ch%19 != 0 && ch != 3 {
 					continue
 				}
 				cs = append(cs, c18Case{Kind: "body", N: n, B64: b64, Chunk: ch})
@@ -380,9 +380,18 @@ func c18Cases(thorough bool) []c18Case {
 				}
 			}
 		}
-		for _, n := range []int{1000, 4096} {
-			for _, ch := range []int{1, 2, 3, 7, 56, 57, 58, 75, 76, 77, 228, 1000, 4095} {
+		for _, n := range []int{1000, 4096, 16000, 33000} {
+			for _, ch := range []int{1, 2, 3, 7, 56, 57, 58, 75, 76, 77, 114, 171, 228, 285, 342, 399, 456, 513, 570, 768, 1000, 1024, 2048, 4095, 4096, 8192, 32768} {
+				if ch == 1 && n > 5000 {
+					continue
+				}
 				cs = append(cs, c18Case{Kind: "body", N: n, B64: b64, Chunk: ch})
+			}
+		}
+		// every multiple of 3, 19 and 57 up to 600 as chunk size on a 1200-byte content (line-aligned encoder output)
+		for ch := 3; ch <= 600; ch++ {
+			if ch%57 == 0 || ch%19 == 0 || (thorough && ch%3 == 0) {
+				cs = append(cs, c18Case{Kind: "body", N: 1200, B64: b64, Chunk: ch})
 			}
 		}
 		// all 2^(n-1) splittings for small n
